@@ -218,7 +218,7 @@ def value_menu():
         ("x-period-ddd", vDDDTypes((z, timedelta(hours=1)))),
         ("rdate", vDDDLists([z, z + timedelta(days=1)])), ("exdate", vDDDLists([date(2024, 1, 2)])),
         ("categories", vCategory(["a,b", "c"])), ("rrule", vRecur(freq="weekly", byday=["MO", "-1SU"], until=datetime(2025, 1, 1, tzinfo=utc))),
-        ("geo", vGeo((1.5, -2.5))), ("tzoffsetto", vUTCOffset(timedelta(hours=-5, minutes=-30))), ("x-time", vTime(time(1, 2, 3))),
+        ("geo", vGeo((1.5, -2.5))), ("x-geo-zeros", vGeo((0.0, -0.0))), ("x-float-negzero", vFloat(-0.0)), ("tzoffsetto", vUTCOffset(timedelta(hours=-5, minutes=-30))), ("x-time", vTime(time(1, 2, 3))),
         ("x-inline", vInline("raw,value")),
     ]
 
@@ -368,6 +368,8 @@ def emit_per_tree(order):
         builders.append((f"menu{idx}", lambda idx=idx: purity_tree(idx, True, True)))
     for label, mk in (("month5", lambda: vRecur(freq="yearly", bymonth=[vMonth(5)])), ("month5L", lambda: vRecur(freq="yearly", bymonth=[vMonth("5L")])),
                       ("int0", lambda: vInt(0)), ("boolF", lambda: vBoolean(False)), ("float0", lambda: vFloat(0.0)),
+                      ("floatn0", lambda: vFloat(-0.0)), ("geo0", lambda: vGeo((0.0, 36.8))), ("geon0", lambda: vGeo((-0.0, 36.8))),
+                      ("geo0n0", lambda: vGeo((0.0, -0.0))), ("int1", lambda: vInt(1)), ("boolT", lambda: vBoolean(True)), ("float1", lambda: vFloat(1.0)),
                       ("textA", lambda: vText("A")), ("texta", lambda: vText("a")), ("uriA", lambda: vUri("A"))):
         def build(mk=mk):
             ev = Event()
